@@ -22,7 +22,7 @@ def run(ctx):
     ctx.add_eval(st.get("linted", 0), distinct=len(d["data"].get("classes", {})), traces=st.get("linted", 0))
     ctx.cov["rule"] = ("directed generation (blind byte mutation finds nothing): every UTF8String explicitText up to length 2 (thorough: 3) over a 12-symbol alphabet of ASCII, control, "
                       "continuation and lead bytes plus longer random ones; hostile keyUsage/SCT/qcStatements/CDP/AIA/EKU/policies/nameConstraints/SAN/IAN/Tor contents; SAN/IAN names of "
-                      "every kind incl. empty, one-label, onion and arpa shapes; corpus certificates with one structure-aware mutation inside an extension value (empty, truncate, retag, "
+                      "every kind incl. empty, one-label, onion and arpa shapes; structured subjects (every ordered pair of values of each repeated subject attribute - organizationIdentifier under all 18 scope profiles: TLS DV/OV/IV/EV, 12 S/MIME policies, code signing, sub-CA, e-mail EKU - plus random multi-attribute subjects with odd string types and multi-valued RDNs); corpus certificates with one structure-aware mutation inside an extension value (empty, truncate, retag, "
                       "duplicate, delete, lead-byte ending, short hostile content, reverse); mutated CRLs and OCSP responses; only what the parsers accept is linted; distinct = generator classes")
     ctx.notes["stats"] = st
     ctx.notes["classes"] = d["data"].get("classes")
